@@ -198,6 +198,37 @@ def run(ctx: Ctx) -> int:
         )
     ctx.floor("C05.b-raw-key-sources", n_src, 3)
 
+    # the default class_path fallback of a subclass-typed value depends on the key's previous value only, not on
+    # how much the channel has accumulated so far (the environment channel starts from an empty namespace,
+    # command line and objects from the defaults)
+    ct = ctx.func("_typehints:ActionTypeHint._check_type")
+    fb = [s_ for s_ in walk_local(ct) if isinstance(s_, ast.Assign) and root_name(s_.targets[0]) == "prev_val" and isinstance(s_.value, ast.Call) and call_leaf(s_.value) == "Namespace" and "self.default" in ast.unparse(s_.value)]
+    ctx.need(fb, "ActionTypeHint._check_type: fallback to the default's class_path")
+    gct = ctx.cfg(ct)
+    for s_ in fb:
+        tests = [(t, pol) for t, pol in gct.guards_of(gct.cn(s_), exclude_labels={"e"})]
+        on_prev = any("prev_val is None" in ast.unparse(t) and pol for t, pol in tests)
+        on_cfg = [ast.unparse(t) for t, pol in tests if any(isinstance(n_, ast.Name) and n_.id == "cfg" for n_ in ast.walk(t)) and "prev_val" not in ast.unparse(t)]
+        ok = on_prev and not on_cfg
+        ctx.oblige("C05.a", ok, s_, "the fallback to the default's class_path is taken whenever the key has no previous value" if ok else f"the fallback to the default's class_path depends on the state of the accumulated configuration ({on_cfg or 'no `prev_val is None` test'}): channels that start from an empty namespace resolve a different class than those that start from the defaults", fn=ct)
+
+    # ---------------- C05.d: every JSON number is a number for the yaml loader ----------------
+    from . import yamlmodel
+    from .relang import DFA
+
+    ld = ctx.repo.mod("_loaders_dumpers")
+    stock, stock_path = yamlmodel.stock_table()
+    led = yamlmodel.extract_table_edits(ld, ctx.func("_loaders_dumpers:get_yaml_default_loader"))
+    LL = yamlmodel.ResolverLang(yamlmodel.apply_edits(stock, led))
+    J_INT = DFA.from_regex(r"-?(?:0|[1-9][0-9]*)")
+    J_NUM = DFA.from_regex(r"-?(?:0|[1-9][0-9]*)(?:\.[0-9]+)?(?:[eE][-+]?[0-9]+)?")
+    gl = ctx.func("_loaders_dumpers:get_yaml_default_loader")
+    okk, w = LL.resolves_to("tag:yaml.org,2002:int").includes(J_INT)
+    ctx.oblige("C05.d", okk, gl, "every JSON integer literal is read as int by the yaml loader" if okk else f"the JSON integer {w!r} is not read as int by the yaml loader", fn=gl, construct="json int <= yaml int")
+    okk, w = LL.resolves_to("tag:yaml.org,2002:float").includes(J_NUM - J_INT)
+    ctx.oblige("C05.d", okk, gl, "every JSON number with fraction or exponent (any sign / case of the exponent) is read as float by the yaml loader: a JSON document means the same under parser_mode yaml and json" if okk else f"the JSON number {w!r} is read as a string by the yaml loader but as a number by the json loader: the same document is accepted under one parser mode and rejected under the other", fn=gl, construct="json float <= yaml float", details={"witness": w})
+    ctx.trusted_base.append(f"JSON number grammar (RFC 8259); stock PyYAML resolver table from {stock_path}")
+
     # ---------------- C05.c ---------------------------------------------------
     init = ctx.func("_namespace:Namespace.__init__")
     loops = [n_ for n_ in walk_local(init) if isinstance(n_, ast.For)]
